@@ -96,7 +96,10 @@ var ReplaceNumbersInWords = false
 func GetFingerprint(q string) string {
 	q += " " // need range to run off end of original query
 	prevWord := ""
-	f := make([]byte, len(q)+1)
+	// The fingerprint can be longer than the query: a value list "(1)" becomes
+	// "(?+)", so "a in(1) or b in(1)" outgrew a buffer of len(q)+1 bytes and
+	// GetFingerprint panicked. No rewrite more than doubles its input.
+	f := make([]byte, 2*len(q)+1)
 	fi := 0
 	pr := rune(0) // previous rune
 	s := unknown  // current state
